@@ -77,6 +77,8 @@ class C06(Prop):
             # lines (obs-fold) at one of its spaces
             "name": st.sampled_from([0, 0, 1, 2, 3]), "fold": st.one_of(st.none(), st.none(), st.integers(0, 5)),
             "pre": st.sampled_from([" ", " ", "", "\t", "  "]), "post": st.sampled_from(["", "", " ", "\t"]),
+            # empty elements in the comma-separated list (before / after the extension)
+            "list": st.sampled_from([0, 0, 0, 1, 2, 3, 4]),
         })
         sized = st.one_of(
             st.tuples(st.sampled_from(["rand", "rep"]), gen.weighted([
@@ -240,7 +242,8 @@ class C06(Prop):
             return self.run_invalid(case)
         if "battery" in case:
             cfg0 = case["cfg"]
-            presets = [{"order": 0}, {"order": 1, "quote": True}, {"order": 2, "eq_l": " ", "eq_r": " "},
+            presets = [{"order": 0}, {"order": 1, "list": 1}, {"order": 2, "list": 2}, {"order": 0, "list": 4, "quote": True},
+                       {"order": 1, "quote": True}, {"order": 2, "eq_l": " ", "eq_r": " "},
                        {"order": 7, "semi_l": " ", "semi_r": "", "eq_l": "\t"}, {"order": 3, "omit_default": True},
                        {"order": 9, "quote": True, "eq_r": " ", "semi_r": "  "},
                        {"order": 0, "fold": 0}, {"order": 4, "fold": 1, "name": 2}, {"order": 5, "fold": 0, "name": 3, "quote": True},
